@@ -241,6 +241,18 @@ def c09(case: Dict[str, Any], obs: Dict[str, Any]) -> Optional[str]:
                     return f"reported no candidate for {obs['name']}{spec} although {c[0]}=={c[1]} is offered, readable and satisfies it"
         if obs.get("graph") is not None and k not in {n["key"] for n in obs["graph"]}:
             return f"failure names {obs['name']} which is not in the dependency graph handed back"
+        chains = obs.get("chains")
+        if isinstance(chains, list) and chains and chains[0] != "ERR" and obs.get("graph") is not None:
+            nodes = {n["key"]: n for n in obs["graph"]}
+            for ch in chains:
+                if not ch or ch[-1] != k:
+                    return f"a reported requirement chain does not end at the failing project: {ch}"
+                head = nodes.get(ch[0])
+                if len(ch) > 1 and head is not None and head["rdeps"]:
+                    return f"a reported requirement chain starts at {ch[0]}, which is itself required by {head['rdeps'][0][0]} (not an input): {ch}"
+                for a, b in zip(ch, ch[1:]):
+                    if a not in nodes or b not in [d[0] for d in nodes[a]["deps"]]:
+                        return f"a reported requirement chain uses a link {a} -> {b} that is not in the graph: {ch}"
     return None
 
 
